@@ -43,6 +43,7 @@ type Violation struct {
 	Features []string        `json:"features"`
 	Runs     int             `json:"confirmed_runs"`
 	Count    int             `json:"occurrences_in_run,omitempty"` // executions of this run with the same clause+features
+	Note     string          `json:"note,omitempty"`
 }
 
 // V builds a violation; in is marshalled to JSON and is what replay receives.
@@ -210,6 +211,11 @@ type Run struct {
 func NewRun(prop, tier string) *Run {
 	r := &Run{Prop: prop, Tier: tier, Build: "plain", Start: time.Now(), Workers: runtime.NumCPU(),
 		known: map[string]int{}, Extra: map[string]interface{}{}}
+	if w := 0; os.Getenv("VERIF_WORKERS") != "" {
+		if fmt.Sscan(os.Getenv("VERIF_WORKERS"), &w); w > 0 {
+			r.Workers = w
+		}
+	}
 	fmt.Sscan(os.Getenv("VERIF_SEED"), &r.Seed)
 	// the deadline is a safety net, not a budget: quick runs take well under a minute on the unchanged tree. It is
 	// generous because a changed tree can make scenarios much slower (more inputs accepted, audit-widened alphabets)
@@ -487,6 +493,42 @@ func (r *Run) Abort(scenario string, v *Violation, note string) {
 
 // ---- finishing ----
 
+// Confirm feeds the input of each reported violation (the first 12) to the property's plain replay function, twice, after
+// all workers have stopped, and records how often the same clause failed again. A violation that does not reproduce
+// from its input alone is still reported - the outcome then depended on what the library had been asked before, or at
+// the same time, which no sequential property allows - and is marked as such.
+func (r *Run) Confirm(replay func(scenario string, raw json.RawMessage) []*Violation) {
+	if replay == nil {
+		return
+	}
+	for i, v := range r.viol {
+		if i >= 12 {
+			break
+		}
+		if v.Scenario == "" || len(v.Input) == 0 {
+			continue
+		}
+		n := 0
+		for k := 0; k < 2; k++ {
+			var ws []*Violation
+			done := WithTimeout(60*time.Second, func() { Guard(func() { ws = replay(v.Scenario, v.Input) }) })
+			if !done {
+				break
+			}
+			for _, w := range ws {
+				if w.Clause == v.Clause {
+					n++
+					break
+				}
+			}
+		}
+		v.Runs = n
+		if n == 0 {
+			v.Note = "did not reproduce when this input alone was replayed twice after the run: the outcome depended on earlier or concurrent calls into the library (state kept between calls), which the artefact's input does not capture"
+		}
+	}
+}
+
 func (r *Run) repoHead() string { return r.RepoHead }
 
 // Finish writes evidence, artefacts, prints VIOLATION / KNOWN-FINDING lines and returns the exit code.
@@ -542,6 +584,9 @@ func (r *Run) Finish() int {
 		fmt.Printf("VIOLATION property=%s replay=%s\n", r.Prop, p)
 		fmt.Printf("  scenario=%s clause=%s features=%v\n  expected: %s\n  observed: %s\n  input: %s\n", v.Scenario, v.Clause, v.Features,
 			clip(v.Expected, 300), clip(v.Observed, 300), clip(string(v.Input), 400))
+		if v.Note != "" {
+			fmt.Printf("  note: %s\n", v.Note)
+		}
 	}
 	kf := loadKnown()
 	ids := make([]string, 0, len(r.known))
